@@ -272,12 +272,21 @@ def check(repo: Repo, run: Run) -> None:
     found_writers: Dict[str, list] = {}
     log_call = T("attr", (T("class", ("pykdebugparser.os_log_event.OsLogEvent",)), "from_raw_log_event"))
     kb = repo.cls("kd_buf_parser", "KdBufParser")
+    kb_recs = {mname: interp.run(kb.module, fn, self_cls=kb) for mname, fn in kb.methods.items() if mname != "__init__"}
+    # writes of a helper method seen inlined in a caller are judged there (with the caller's arguments), not in the
+    # stand-alone run of the helper where the written values are just its parameters
+    inlined_elsewhere = {e.func for mname, r_ in kb_recs.items() for e in r_.effects
+                         if table_write(e) and not e.func.endswith("." + mname)}
     for mname, fn in kb.methods.items():
         if mname == "__init__":
             continue
-        rec = interp.run(kb.module, fn, self_cls=kb)
+        rec = kb_recs[mname]
         for e in rec.effects:
             if not table_write(e):
+                continue
+            if e.func.endswith("." + mname) and e.func in inlined_elsewhere and any(
+                    x.op == "param" and x != SELF for t_ in [e.value, e.key if isinstance(e.key, T) else None] + list(e.args)
+                    if t_ is not None for x in sym.walk(t_)):
                 continue
             terms = [t_ for t_ in (e.key if isinstance(e.key, T) else None, e.value) if t_ is not None] + list(e.args)
             from_log = any(x.op == "call" and x.a[0] == log_call for t_ in terms for x in sym.walk(t_))
